@@ -15,6 +15,7 @@ import (
 	"path/filepath"
 	"sort"
 	"strings"
+	"time"
 
 	"github.com/sourcegraph/zoekt"
 	"github.com/sourcegraph/zoekt/query"
@@ -108,18 +109,24 @@ type runner struct {
 	dir     string
 }
 
+var tBuild, tOpen, tClose time.Duration
+
 func newRunner(repos []q2lib.Repo) *runner {
 	dir, err := os.MkdirTemp(os.Getenv("VERIF_WORK"), "c06idx")
 	if err != nil {
 		panic(err)
 	}
+	t0 := time.Now()
 	if err := q2lib.BuildShards(dir, repos); err != nil {
 		panic(err)
 	}
+	tBuild += time.Since(t0)
+	t0 = time.Now()
 	s, err := search.NewDirectorySearcher(dir)
 	if err != nil {
 		panic(err)
 	}
+	tOpen += time.Since(t0)
 	rn := &runner{repos: repos, docs: q2lib.Flatten(repos), sharded: s, dir: dir}
 	for _, d := range rn.docs {
 		rn.repoOf = append(rn.repoOf, d.Repo)
@@ -128,8 +135,10 @@ func newRunner(repos []q2lib.Repo) *runner {
 }
 
 func (rn *runner) close() {
+	t0 := time.Now()
 	rn.sharded.Close()
 	os.RemoveAll(rn.dir)
+	tClose += time.Since(t0)
 }
 
 // search: the documents the implementation selects for the string s ("err" = rejected by the parser).
@@ -196,6 +205,13 @@ func (rn *runner) runCase(g q2lib.Qy) gen.Case {
 		c.Key = "badgen"
 	case q2lib.Bits(want) != impl:
 		c.Go = fmt.Sprintf("documented meaning selects %s, implementation %s", q2lib.Bits(want), impl)
+		// known class: the disagreement is explained exactly by `regex:` atoms also matching file names
+		if q2lib.HasRegexField(g) {
+			if alt, ok := q2lib.SemRegexAsBarePattern(g, rn.docs); ok && q2lib.Bits(alt) == impl {
+				c.Key = "sem:regex-field-matches-filename"
+				c.Class = "regex-field-matches-filename"
+			}
+		}
 	default:
 		c.Go = "ok"
 	}
@@ -265,8 +281,8 @@ func main() {
 		rn.close()
 	}
 
-	nCorpora := f.N(9, 100)
-	perCorpus := f.N(450, 1000)
+	nCorpora := f.N(4, 100)
+	perCorpus := f.N(600, 1000)
 	for k := 0; k < nCorpora; k++ {
 		repos := genCorpus(r)
 		rn := newRunner(repos)
@@ -282,6 +298,9 @@ func main() {
 		}
 		rn.close()
 	}
+	w.Count("ms-build-shards", int(tBuild.Milliseconds()))
+	w.Count("ms-open-searcher", int(tOpen.Milliseconds()))
+	w.Count("ms-close-searcher", int(tClose.Milliseconds()))
 }
 
 func b2i(b bool) int {
